@@ -27,7 +27,6 @@ import (
 	"github.com/attestantio/go-eth2-client/spec/altair"
 	"github.com/attestantio/go-eth2-client/spec/bellatrix"
 	"github.com/attestantio/go-eth2-client/spec/phase0"
-	mockaccountmanager "github.com/attestantio/vouch/services/accountmanager/mock"
 	standardattester "github.com/attestantio/vouch/services/attester/standard"
 	"github.com/attestantio/vouch/services/beaconblockproposer"
 	"github.com/attestantio/vouch/services/beaconcommitteesubscriber"
@@ -286,7 +285,12 @@ func (e *soakEnv) SubmitSyncCommitteeContributions(context.Context, []*altair.Si
 	return nil
 }
 
-// block relay side
+// block relay side: the proposal path (AuctionBlock) looks the proposer's account up; the builder API
+// path (BuilderBid -> immediateBuilderBid) runs the auction without an account
+func (e *soakEnv) AccountByPublicKey(_ context.Context, _ phase0.BLSPubKey) (e2wtypes.Account, error) {
+	return newSoakAccount(1), nil
+}
+
 type soakExecConfig struct{}
 
 func (soakExecConfig) ProposerConfig(context.Context, e2wtypes.Account, phase0.BLSPubKey, bellatrix.ExecutionAddress, uint64) (*beaconblockproposer.ProposerConfig, error) {
@@ -381,7 +385,7 @@ func runSoakInBubble(t *testing.T, in *SoakInput) (obs SoakObs) {
 		obs.Problem = "messenger: " + err.Error()
 		return obs
 	}
-	relay := standardblockrelay.NewForVerifC09(level, mockaccountmanager.NewAccountsProvider(), soakExecConfig{}, soakBidStrategy{},
+	relay := standardblockrelay.NewForVerifC09(level, e, soakExecConfig{}, soakBidStrategy{},
 		map[phase0.BLSPubKey]*blockrelay.BuilderConfig{})
 	ctrl := standardcontroller.NewForVerif(&standardcontroller.VerifDeps{
 		LogLevel:                     level,
